@@ -92,7 +92,7 @@ Proof.
   intros Hu.
   destruct (quantize_up_spec unit off e Hu) as [A [k1 A3]].
   destruct (quantize_up_spec unit off (quantize_up unit off e) Hu) as [B [k2 B3]].
-  rewrite B3. rewrite A3 at 2.
+  rewrite B3. rewrite A3.
   apply (grid_unique unit _ _ k2 k1 (quantize_up unit off e) Hu).
   - rewrite <- B3. exact B.
   - rewrite <- A3. lia.
